@@ -186,4 +186,7 @@ class SchedMode(vlib.Mode):
 
 def modes(tier):
     # the register histories of C10 run here too: "refused until the expiry given in the deny request" is the register's business
-    return [SchedMode(), RelayMode("C07"), c10.DenyMode(), RelayMainMode("C07", 3)]
+    return [SchedMode(), RelayMode("C07"), c10.DenyMode(), RelayMainMode("C07", 3), StubbornMode("C07")]
+
+from lagcommon import StubbornMode, STUBBORN_RULE
+RULE = RULE + STUBBORN_RULE
